@@ -344,9 +344,21 @@ pub fn run_case(c: &Case, ip: &str) -> Vec<Fail> {
     // ---- frames
     let frames = client_frames(c);
     deliver(&mut sock, &frames, &c.delivery);
+    // When the harness itself ends the session by vanishing, it first lets the handler take in what was sent (all of it is
+    // in the kernel's buffers by now): vanishing earlier may reset the connection and wipe what the server has not read
+    // yet, which would make "the handler got only some of the messages" a property of the harness, not of the server.
+    let sent_msgs = frames.iter().filter(|f| f.fin && f.opcode < 8).count();
+    let takes_all = !matches!(c.mode, Mode::DropImmediately | Mode::DropAfter(_));
+    let wait_taken = |max: Duration| {
+        let t = Instant::now();
+        while takes_all && t.elapsed() < max && st.log.lock().unwrap().iter().filter(|e| matches!(e, Ev::Msg { .. })).count() < sent_msgs {
+            std::thread::sleep(Duration::from_millis(1));
+        }
+    };
     match &c.ending {
         Ending::Abrupt => {
             // give the server a moment to read what was sent, then vanish
+            wait_taken(Duration::from_secs(5));
             std::thread::sleep(Duration::from_millis(30));
             let _ = sock.shutdown(std::net::Shutdown::Both);
             std::thread::sleep(Duration::from_millis(5));
@@ -371,6 +383,7 @@ pub fn run_case(c: &Case, ip: &str) -> Vec<Fail> {
     }
     if !handler_ends {
         // recv loop with nothing ending it: end it ourselves after the data went through
+        wait_taken(Duration::from_secs(5));
         std::thread::sleep(Duration::from_millis(40));
         let _ = sock.shutdown(std::net::Shutdown::Both);
         std::thread::sleep(Duration::from_millis(5));
